@@ -190,9 +190,11 @@ fn add_probes(g: &mut GraphSpec, assign_via_forward: bool, rng: &mut Rng) {
                 Stmt::Load { kind: LoadKind::Forward, with_cfg, filter, .. } => {
                     *with_cfg = rng.chance(1, 6);
                     // a third of the forwards filter (without hiding anything that is visible otherwise)
-                    *filter = match rng.below(6) {
+                    *filter = match rng.below(8) {
                         0 => 1,
                         1 => 2,
+                        // members get a prefix on the way through (`as q<t>-*`)
+                        2 => 3,
                         _ => 0,
                     };
                 }
